@@ -124,7 +124,7 @@ func checkC14(c *Ctx) {
 					switch {
 					case pc.Is(app):
 						na++
-						if core.Strip(pc.Arg(0)) != ssa.Value(f.Params[pubIdx]) {
+						if !same(p.Resolve(pc.Arg(0)), f.Params[pubIdx]) {
 							bad = "what is appended to the local log is not the publish being distributed"
 						}
 					case pc.Is(tcall):
@@ -136,7 +136,7 @@ func checkC14(c *Ctx) {
 						okMsg := false
 						if cf != nil {
 							for _, rpc := range core.CallsTo(cf, clientSched) {
-								if msg := complitField(rpc.Arg(1), "Message"); msg != nil && core.Strip(msg) == ssa.Value(f.Params[pubIdx]) {
+								if msg := complitField(rpc.Arg(1), "Message"); msg != nil && same(p.Resolve(msg), f.Params[pubIdx]) {
 									okMsg = true
 								}
 							}
